@@ -334,3 +334,11 @@ example : qTypeOf (final witnessParams
 end Blowout
 
 end TamocV.Props.C19
+
+#print axioms TamocV.Props.C19.query_frame
+#print axioms TamocV.Props.C19.not_query_frame
+#print axioms TamocV.Props.C19.query_answer_indep_of_history
+#print axioms TamocV.Props.C19.get_values_frame
+#print axioms TamocV.Props.C19.answer_indep_of_history
+#print axioms TamocV.Props.C19.blowout_refines_fresh
+#print axioms TamocV.Props.C19.not_blowout_refines_fresh
